@@ -202,6 +202,10 @@ func (l *DList[T]) Shift() *DoubleNode[T] {
 	} else {
 		head = head.next
 		l.DoubleNode = *head
+		l.prev = nil
+		if l.next != nil {
+			l.next.prev = &l.DoubleNode
+		}
 	}
 
 	return &node
